@@ -2,7 +2,10 @@
   LucidProofs.Lemmas.Facts — named hypotheses about the oracles and the generated tables.
   * `UnicodeFacts` is checked against Rust's `std` on all scalars by the harness on every run.
   * `TablesOK` is decided by the kernel on the generated tables (see the `_src` theorems).
-  * `StemBounded` is a hypothesis for the six Snowball languages (third-party code), a theorem for `none`.
+  * `StemBounded` is a hypothesis for the six Snowball languages (third-party code), a theorem for `none`;
+    it speaks about words free of reduce-table keys only (the words that can reach the stemmer).
+  * `FoldClosed` is decided by the kernel on the generated reduce tables; `LowerKeyFree` is an oracle/table fact
+    checked by the harness.
 -/
 import LucidModel.Registry
 import LucidModel.Gen.Consts
@@ -40,8 +43,31 @@ theorem tablesOK_fr : TablesOK Gen.lang_fr = true := by decide
 theorem tablesOK_pt : TablesOK Gen.lang_pt = true := by decide
 theorem tablesOK_ru : TablesOK Gen.lang_ru = true := by decide
 
-/-- Snowball oracle: the stem of a non-empty word has between 1 and `|w|` characters -/
-def StemBounded (E : Env) : Prop := ∀ w : List Nat, w ≠ [] → 1 ≤ E.stem w ∧ E.stem w ≤ w.length
+/-- decidable closure condition on a reduce table: every key is a single character, and no character of a
+    replacement is itself a key (folding is idempotent and, there being no two-character keys, never
+    interacts with the neighbours; after `unicode_reduce` no character of the text is a key). -/
+def FoldClosed (m : List (List Nat × List Nat)) : Bool :=
+  m.all (fun e => e.1.length == 1 && e.2.all (fun c => (mapGet m [c]).isNone))
+
+theorem foldClosed_none : FoldClosed Gen.lang_none.reduce = true := by decide
+theorem foldClosed_de : FoldClosed Gen.lang_de.reduce = true := by decide
+theorem foldClosed_en : FoldClosed Gen.lang_en.reduce = true := by decide
+theorem foldClosed_es : FoldClosed Gen.lang_es.reduce = true := by decide
+theorem foldClosed_fr : FoldClosed Gen.lang_fr.reduce = true := by decide
+theorem foldClosed_pt : FoldClosed Gen.lang_pt.reduce = true := by decide
+theorem foldClosed_ru : FoldClosed Gen.lang_ru.reduce = true := by decide
+
+/-- oracle/table fact: lower-casing never turns a character the reduce table leaves alone into a key of the
+    reduce table (checked by the harness over all scalars against Rust's `std` and the real tables) -/
+def LowerKeyFree (E : Env) : Prop :=
+  ∀ c, mapGet E.T.reduce [c] = none → mapGet E.T.reduce [E.U.lower1 c] = none
+
+/-- Snowball oracle: the stem of a non-empty word *that can reach the stemmer* — one none of whose characters
+    is a key of the language's reduce table, since `normalize` runs before `set_stem` — has between 1 and
+    `|w|` characters.  (Unrestricted, the bound is false for the real German stemmer: it rewrites `ß` to `ss`
+    itself, so `stem "ß" = 2`; but the German reduce table maps `ß → ss` first.) -/
+def StemBounded (E : Env) : Prop :=
+  ∀ w : List Nat, w ≠ [] → (∀ c ∈ w, mapGet E.T.reduce [c] = none) → 1 ≤ E.stem w ∧ E.stem w ≤ w.length
 
 /-- edit costs: what the distance theorems need of the generated constants -/
 def CostsOK (K : Consts) : Bool :=
